@@ -14,26 +14,25 @@ ENV = "GOFLAGS=-mod=mod GOPROXY=off GOSUMDB=off GOTOOLCHAIN=local GOWORK=off"
 NA = {
  "C10": "exact arithmetic of Add/Lsh/Rsh/Mul/Div/Nand/Ltu for all operand values and widths is a numerical result over unbounded byte loops and big.Int round trips; no structural clause short of evaluating the arithmetic (the one structural part, one evaluator per operator, is decided under C09)",
  "C11": "each gadget's meaning is the value of a NAND/shift/compare network for all widths and operands; deciding it needs evaluation or a solver, which is another technique family",
- "C17": "the interval-set operations touch their inputs only through comparisons but inside loops over slices of unbounded length; deciding them would be bounded execution, not static analysis (the compaction-idiom clause is decided under C15/C32)",
  "C19": "whether conflict detection finds every pair of overlapping patterns is a property of mask algebra over all pattern sets; no structural necessary condition short of re-deriving that algebra (for the concrete RISC-V tables disjointness is decided under C02)",
  "C29": "termination and line widths of the greedy wrapper depend on string lengths and a running index; no sound structural necessary condition in reach",
 }
 
 # property -> (technique, level text, level note, design ref)
 T = {
- "C01": ("abstract interpretation of riscv.init and every effects closure over go/ssa (known-bits + bit-dependence, decision-replay path exploration), template rules F0-F11, exact check of immediate/register-field decoding against the ISA formats, canonical-form comparison of every entry's effect terms with a reference semantics table (C01.sem)",
-         "structural necessary conditions of correct lifting decided for all 160 table entries on all abstract paths: closures do not panic, every decoded operand bit influences the effects, access widths match metadata, operand roles (rs1 address / rs2 value / rd target / CSR bits), x0 guarded, XLEN widths, sign extension of immediates and of W results, operand order of non-commutative operations, every RV64 W-form entry agrees with its RV32 twin up to operators whose low bits depend only on low bits (F11); immediate formats I/S/B/U/J and register fields are verified bit-exactly; the lifted effect terms of all 160 entries equal, in a canonical form, the instruction definitions of the ISA manual written in the same vocabulary (operator, operand roles, comparison polarity, targets, widths, sign extension, jalr bit 0, mulh*/AMO selection). The meaning of the exprtools helpers themselves (C11) and CSR numbering are NOT decided; a helper replaced by its expansion would be reported although behaviour is unchanged",
+ "C01": ("abstract interpretation of riscv.init and every effects closure over go/ssa (known-bits + bit-dependence, decision-replay path exploration), template rules F0-F11, exact check of immediate/register-field decoding against the ISA formats, canonical-form comparison of every entry's effect terms with a reference semantics table (C01.sem), concrete walk with Go integer wrap-around of the PC-relative address helper on boundary immediates (C01.pcrel)",
+         "structural necessary conditions of correct lifting decided for all 160 table entries on all abstract paths: closures do not panic, every decoded operand bit influences the effects, access widths match metadata, operand roles (rs1 address / rs2 value / rd target / CSR bits), x0 guarded, XLEN widths, sign extension of immediates and of W results, operand order of non-commutative operations, every RV64 W-form entry agrees with its RV32 twin up to operators whose low bits depend only on low bits (F11); immediate formats I/S/B/U/J and register fields are verified bit-exactly; the lifted effect terms of all 160 entries equal, in a canonical form, the instruction definitions of the ISA manual written in the same vocabulary (operator, operand roles, comparison polarity, targets, widths, sign extension, jalr bit 0, mulh*/AMO selection); the helper adding a signed 32-bit immediate to an address is exact for 0, +-1, +-2^11, MaxInt32 and MinInt32. The meaning of the exprtools helpers themselves (C11) and CSR numbering are NOT decided; a helper replaced by its expansion would be reported although behaviour is unchanged",
          "trusts go/ssa, the abstract interpreter's transfer functions and that pkg/expr constructors mean what they document", "§4 C01"),
- "C02": ("SSA constant evaluation of the opcode tables and of instructionSet for the 8 configurations + exact cube algebra (sharp) against a reference encoding table; dominance rules for length check / 4-byte read",
-         "proof by exhaustive symbolic set algebra: for each of the 8 parser configurations the accept set of the implementation equals the reference accept set, patterns are pairwise disjoint and names agree, for all 2^32 words; short input rejected before matching and only 4 bytes read",
+ "C02": ("SSA constant evaluation of the opcode tables and of instructionSet for the 8 configurations + exact cube algebra (sharp) against a reference encoding table; dominance rules for length check / 4-byte read; provenance of the returned parser's matcher (a cache is accepted only with a key walked to be injective over all configurations)",
+         "proof by exhaustive symbolic set algebra: for each of the 8 parser configurations the accept set of the implementation equals the reference accept set, patterns are pairwise disjoint and names agree, for all 2^32 words; short input rejected before matching and only 4 bytes read; the matcher a parser carries is the one built from its own configuration",
          "trusted base: /verif/spec/rv_encodings.json (written from the ISA manual), the cube algebra, the SSA evaluator, and that opcode.Matcher returns the pattern whose masked bytes equal the input (C19 assumed)", "§4 C02"),
- "C03": ("deep-site rules over Emulator.Step and the same-package helpers it reaches (call chains, parameter-to-argument translation, interprocedural data dependence): read-after-apply reachability per function, must-pass-through of evaluation, lookup/miss-edge rules, report pairing; concrete interprocedural CFG walk for the fall-through polarity; unchecked-type-assertion rule for .(expr.Const)",
+ "C03": ("deep-site rules over Emulator.Step and the same-package helpers it reaches (call chains, parameter-to-argument translation, interprocedural data dependence): read-after-apply reachability per function, must-pass-through of evaluation, lookup/miss-edge rules, report pairing (the reporter is identified by its effect on Step.RegLoads/MemLoads, values compared through copies only); concrete interprocedural CFG walk for the fall-through polarity; unchecked-type-assertion rule for .(expr.Const)",
          "evaluation discipline of the emulator: all effects evaluated before any is applied, nothing reads state while applying, fall-through exactly when no applied effect wrote the IP, lookup failure returns an error first, every read/write reported with the same key/address/value, memory layering Overlay(Bytes, Sparse), every .(expr.Const) in the emulator is applied to a constant-folded value or checked. Numeric agreement with a reference machine and absence of panics are NOT decided",
          "trusts go/ssa; C14-C16, C18 cover the state containers", "§4 C03"),
  "C04": ("who-may-call + miss-edge dominance + must-pass-through (memoising store) rules; set-algebra truth tables",
          "for every call site of the state provider: dominated by the miss of the same request, memory ranges taken from Missing() of the same request, answer stored before going on; Overlay.Missing = base ∩ overlay; history semantics of the containers is C14-C16",
          "trusts go/ssa", "§4 C04"),
- "C05": ("loop pairing (every iteration records the writer), scan-direction vs addDep argument order, finder coverage, bound decision by concrete CFG walk",
+ "C05": ("loop pairing (every iteration records the writer), scan-direction vs addDep argument order, finder coverage (direct calls or a static table of passes ranged over as a whole), bound finder identified by role, bound decision by concrete CFG walk",
          "shape of the dependency scanners: last-writer tables updated on every path, edges ordered earlier->later, all five finders run over the whole block, control edges to a jumping last instruction, LowerBound/UpperBound arithmetic; semantic preservation for all blocks is NOT decided",
          "trusts go/ssa and that read/write sets of instructions are complete (C28 rules for FindAll/Exprs)", "§4 C05"),
  "C06": ("guard (control-dependence) rule on all 11 addDep call sites; who-may-call",
@@ -42,11 +41,11 @@ T = {
  "C07": ("decision tables by (interprocedural) concrete CFG walk over all weak orderings (validateArrayIndex 13, checkFromToIndex 16, checkMove 150, move 3), only-writers / who-may-call, symbolic loop-range coverage and slot pairing in moveFwd/moveBack",
          "admission logic exact over orderings; rotation gated by the nil check; bookkeeping fields written only by owners; every slot of [lo,hi] rewritten once with index and chained address; lookups use the address-ordered copy. Invariants over arbitrary histories follow only as far as these local conditions imply them",
          "trusts go/ssa; LowerBound/UpperBound treated as opaque symbols in checkMove", "§4 C07"),
- "C08": ("error propagation, concrete interprocedural CFG walk of deps.jumps over 19 combinations (store kind, folds to a constant, equals End()), guard/dependence rules with predicate-helper summaries, memmove-direction rule, pipeline dataflow chain",
-         "jump targets = folded Possibilities of IP writes, dropped only when constant == ins.End(); splitting stages chained and cutting under the right comparisons; errors propagate. Where exactly splits fall for all inputs is not decided",
+ "C08": ("error propagation, concrete interprocedural CFG walk of deps.jumps over 19 combinations (store kind, folds to a constant, equals End()), guard/dependence rules with predicate-helper summaries, memmove-direction rule, pipeline dataflow chain, no-insertion-while-ranging rule for fixed-trip loops",
+         "jump targets = folded Possibilities of IP writes, dropped only when constant == ins.End(); splitting stages chained and cutting under the right comparisons; errors propagate; no loop with a trip count fixed on entry walks a block list its body inserts into. Where exactly splits fall for all inputs is not decided",
          "trusts go/ssa", "§4 C08"),
- "C09": ("traversal rules over the sealed IR (origin dataflow, rebuild homomorphism, case bodies followed into extracted helpers), concrete interprocedural CFG walk of the Binary/Less cases over all combinations of constant operands, changed flags and comparison outcome, operator table agreement",
-         "constFold folds every child, rebuilds nodes with their own operator/key/width, evaluates exactly when both operands are constants (no further condition), selects the right branch of a constant comparison and re-widths it, passes operands in order, ends with PurgeWidthGadgets; value preservation itself needs C10/C11 and is not decided",
+ "C09": ("traversal rules over the sealed IR (origin dataflow, rebuild homomorphism, case bodies followed into extracted helpers), concrete interprocedural CFG walk of the Binary/Less cases over all combinations of constant operands, changed flags and comparison outcome, operator-to-evaluator agreement by concrete walk of binaryEvalFunc per operator (switch, if chain or static table), byte-slice ownership in exprtransform/expreval",
+         "constFold folds every child, rebuilds nodes with their own operator/key/width, evaluates exactly when both operands are constants (no further condition), selects the right branch of a constant comparison and re-widths it, passes operands in order, ends with PurgeWidthGadgets, and never writes through the bytes of the constants it folds; value preservation itself needs C10/C11 and is not decided",
          "trusts go/ssa", "§4 C09"),
  "C12": ("decision table of dropUselessWidthGadget by CFG walk over the 13 weak orderings of (context, gadget, argument) widths against gadget >= min(arg, w); setWidth walked per node type; purgeWidthGadgetsKeepWidth walked over gadget chains; WidthGadgetArg walked over the 16 shape combinations; context-width agreement of every prune call site",
          "the width-gadget decision function is decided exhaustively; pruning contexts are the consuming widths; addresses are never pruned in a narrowing context; setWidth re-makes only Const and narrowed RegLoad",
@@ -54,23 +53,26 @@ T = {
  "C13": ("traversal rules on Possibilities (origins of returned alternatives, no sub-slicing, SetWidth to the node width), call-graph reachability",
          "every child is expanded, both branches of a conditional are returned at the conditional's width, no conditional constructor is reachable; value equality with some alternative follows by induction from these",
          "trusts go/ssa; SetWidth value preservation is C12", "§4 C13"),
- "C14": ("ghost-interval refinement of cutExpr values (linear forms + branch facts, path alternatives through phis), guard rules on Missing, concrete CFG walk of wholeInterval on 16 interval lists, byte-slice ownership",
-         "every piece put into / taken out of the interval tree covers exactly the address interval it stands for, shifts are (piece.low-addr)*8, cutBegin/cutEnd/expr keep/shift what they document, gaps are emitted under their comparisons; full history semantics (tree library, overlapping sequences) is not decided",
+ "C14": ("ghost-interval refinement of cutExpr values (linear forms + branch facts, path alternatives through phis), guard rules on Missing, concrete CFG walk of wholeInterval on 16 interval lists, byte-slice ownership, no-8-bit-scaling rule for byte counts",
+         "every piece put into / taken out of the interval tree covers exactly the address interval it stands for, shifts are (piece.low-addr)*8, cutBegin/cutEnd/expr keep/shift what they document, gaps are emitted under their comparisons, byte offsets are widened before being turned into bit counts; full history semantics (tree library, overlapping sequences) is not decided",
          "trusts go/ssa and the interval tree library (Overlaps sorted, Add/Put/Remove)", "§4 C14"),
  "C15": ("byte-slice ownership analysis with parameter and struct-result summaries, set-algebra truth tables, compaction idiom, memmove-direction rule for in-place shifts, guard rules",
          "no borrowed byte slice is written or retained in mutable blocks, Missing/Blocks are the documented set terms, overlapping blocks rejected, reads return copies under a covering block, the insertion slot is opened by an overlap-safe shift before it is filled",
          "trusts go/ssa; field-based alias abstraction", "§4 C15"),
- "C16": ("set-algebra truth tables (incl. the two range sets inside Load, found through call chains), only-methods-on-base rule (also through helper parameters), concrete walk of the read-failure scenarios, shift/OR/sort patterns",
-         "Missing/Blocks and the ranges read per layer are the documented set terms, the base is never stored to, pieces are read with their interval, sorted, shifted by (Begin-addr) and OR-ed at w, a failed base read fails the read",
+ "C16": ("set-algebra truth tables (incl. the two range sets inside Load, found through call chains), only-methods-on-base rule (also through helper parameters), concrete walk of the read-failure scenarios, shift/OR/sort patterns; the intersection/difference helpers under the set algebra walked for every ordering of an interval against lists of up to 3 (pieces and consumed count) plus sweep structure of their drivers",
+         "Missing/Blocks and the ranges read per layer are the documented set terms, the base is never stored to, pieces are read with their interval, sorted, shifted by (Begin-addr) and OR-ed at w, a failed base read fails the read; MapIntersect/MapComplement, which the set terms stand on, compute intersection/difference for the walked orderings",
          "trusts go/ssa", "§4 C16"),
- "C18": ("SSA pattern + dominance rules on RegMap.Store/Load and State.Apply",
+ "C17": ("concrete interprocedural walk (E7+) of NewMap, MapUnion, MapComplement, MapIntersect and the per-interval helpers with a small model of interval lists (input lists, interval locals, one accumulator; an out-of-range index or slice bound is a crash), once per weak ordering of the endpoints; sort-comparator rule",
+         "the operators touch endpoints only by comparing and copying them, so a walk per ordering covers every input with that ordering: decided for every pair of normalised sets of up to 2 intervals (3249 pairs per operator), helper lists of up to 3, NewMap inputs of up to 3 possibly overlapping/adjacent/tied intervals - result equals the set operation in normal form and no access leaves its list. Lists longer than that are covered only as far as the loops treat every element alike (not proved)",
+         "trusts go/ssa, the walker's list model and sort.Slice", "§4 C17"),
+ "C18": ("SSA pattern + dominance rules on RegMap.Store/Load; concrete walk of State.Apply per effect kind and address-is-constant outcome (a walk returning false passes no store)",
          "stored/loaded register values pass through SetWidth with the method's own width, miss returns absent, a refused memory effect is refused before any state change, effect fields are forwarded from the same node",
          "trusts go/ssa and that exprtransform.SetWidth implements zero-extension/truncation (C12)", "§4 C18"),
- "C20": ("decision tables by CFG walk over the ELF type enum (5 values) and the 16 section-attribute combinations; deep-site provenance / guard rules for the blocks built by Memory() and MachineCode(); concrete interprocedural walks of newMemory (10 block lists), Block.Address (7 addresses) and Memory.Address (28 addresses over three blocks, sort.Search followed) on a concrete block list; error propagation",
+ "C20": ("decision tables by CFG walk over the ELF type enum (5 values); MachineCode walked over a one-section file for the 16 section-attribute combinations and Memory over a one-segment file for 7 (loadable, file size, memory size) combinations; deep-site provenance / guard rules for the blocks built by Memory() and MachineCode(); concrete interprocedural walks of newMemory (10 block lists), Block.Address (7 addresses) and Memory.Address (28 addresses over three blocks, sort.Search followed) on a concrete block list; error propagation",
          "accepts exactly EXEC and DYN, keeps exactly non-empty address-bearing executable PROGBITS, segments become (Vaddr, file bytes + zero fill to Memsz), sections (Addr, Data), overlap (and only overlap) rejected, lookups return the bytes from the address to the end of the containing block or nothing; debug/elf itself is trusted",
          "trusts go/ssa and debug/elf", "§4 C20"),
- "C21": ("deep-site loop-variable and dataflow rules from parser.Parse to the platform decoder and newInstruction (through whatever helpers), error propagation",
-         "the walk starts at Begin(), advances by Len() of the parsed instruction until End(), same addr/bytes parsed and stored, Bytes = bytes[:ByteLen], Effects = ConstFold of the lifted effects only, decode/validate errors abort",
+ "C21": ("deep-site loop-variable and dataflow rules from parser.Parse to the platform decoder and newInstruction (through whatever helpers), freshness of every appended instruction (no data flow from an element of an instruction list), error propagation",
+         "the walk starts at Begin(), advances by Len() of the parsed instruction until End(), same addr/bytes parsed and stored, Bytes = bytes[:ByteLen], Effects = ConstFold of the lifted effects only, decode/validate errors abort, no instruction of the result is derived from another one",
          "trusts go/ssa", "§4 C21"),
  "C22": ("command-table discipline (argument count/type agreement with the parsers), nil-function-field rule, user-input taint for constant indexing, line-index taint with raw-index parameter summaries, validator summaries and lower-bound (non-negative) reasoning, possibly-nil pointer fields, error-continues-loop rule",
          "the crash paths that are visible in the shape of the code are decided for every command and every input-handling function; absence of every run-time panic (arithmetic, library) is NOT decided",
